@@ -4,7 +4,7 @@ key file (byte for byte) and ScoreTables.tla from the compiled constants dumped 
 import json, os, subprocess, sys
 
 VERIF = os.path.dirname(os.path.dirname(os.path.abspath(__file__)))
-GEN = os.path.join(VERIF, ".build-alt", "gen") if os.environ.get("VERIF_REPO", "/repo") != "/repo" else os.path.join(VERIF, "spec", "gen")
+GEN = os.path.join(VERIF, ".build-alt" + os.environ.get("VERIF_ALT_TAG", ""), "gen") if os.environ.get("VERIF_REPO", "/repo") != "/repo" else os.path.join(VERIF, "spec", "gen")
 
 def write_if_changed(path, text):
     if os.path.exists(path) and open(path).read() == text:
